@@ -164,15 +164,27 @@ func c02Run(r *tr.Run, cs c02Case, rng *rand.Rand) (gateReached bool) {
 		return fmt.Sprintf("%s|%s|%v", m.UUID, string(m.Payload), map[string]string(m.Metadata))
 	}
 
+	var ctxMu sync.Mutex
+	cancels := map[string]context.CancelFunc{}
+	endCtx := func(msg *message.Message) {
+		ctxMu.Lock()
+		c := cancels[msg.UUID]
+		ctxMu.Unlock()
+		if c != nil {
+			c()
+		}
+	}
 	handler := func(msg *message.Message) ([]*message.Message, error) {
 		b := beh[mid(msg.UUID)]
 		switch b.Self {
 		case "ack":
 			r.Emit("hself", "m", mid(msg.UUID), "kind", "ack")
 			msg.Ack()
+			endCtx(msg) // like GoChannel, the subscriber ends the delivery's context as soon as it is settled
 		case "nack":
 			r.Emit("hself", "m", mid(msg.UUID), "kind", "nack")
 			msg.Nack()
+			endCtx(msg)
 		}
 		if b.Late != "" {
 			m := mid(msg.UUID)
@@ -348,6 +360,12 @@ func c02Run(r *tr.Run, cs c02Case, rng *rand.Rand) (gateReached bool) {
 		ids = append(ids, m)
 		beh[m] = b
 		consumed[m] = message.NewMessage(prefix+m, []byte("in"))
+		mctx, mcancel := context.WithCancel(context.Background())
+		defer mcancel()
+		consumed[m].SetContext(mctx)
+		ctxMu.Lock()
+		cancels[prefix+m] = mcancel
+		ctxMu.Unlock()
 	}
 	if cs.Gate != "" {
 		gate = sched.Park(cs.Gate, prefix+"m1")
